@@ -246,6 +246,9 @@ func TestC12(t *testing.T) {
 			"blob/range/block/height, nil or short component, other commitment, other root | JSON byte mutation); distinct = distinct (block or header range, object, position, operator) on which the "+
 			"real verifier was called; non-trivial = candidate assembled from valid proof material of the same or a sibling object (random bytes only inside JSON mutations)")
 	defer run.Finish()
+	defer run.WatchDeadlock("C12 a proof request never returns (stable state: blocked on a lock): ", func(f string) bool {
+		return strings.Contains(f, "celestia-node/blob.") || strings.Contains(f, "blobstream.") || strings.Contains(f, "share/eds.")
+	})()
 	c11Quiet()
 	c := &c12{run: run}
 	rng := vkit.NewRNG(vkit.Seed(), "C12")
